@@ -511,7 +511,7 @@ def run(c):
         if not a.startswith('ok|'):
             raise Infra('C03 driver rejected a translated script: %r / %s' % (a, m['script'][:400]))
         f = dict(x.split('=') for x in a.split('|')[1:])
-        bad = [k for k in ('classes', 'shape', 'body', 'ret', 'h3c', 'pro') if f[k] == '0']
+        bad = [k for k in ('classes', 'shape', 'body', 'ret', 'h3c', 'pro', 'first') if f[k] == '0']
         tag = ('cache:' if m['cache'] else 'nocache:') + (','.join(bad) or 'H-holds')
         verdict_counts[tag] += 1
         if f['h3a'] == '0': verdict_counts['result-may-alias-argument'] += 1
